@@ -213,6 +213,34 @@ package sasl
   (callsite "(*sasl.Response).Decode" 0 (requires into-this-response-from-that-buffer (and (= $0 r) (= $1 (callresult "bytes.NewBuffer" 0 0)))))
   (ensures error-is-decodes (= $r0 (callresult "(*sasl.Response).Decode" 0 0))))
 
+; The bundled Go client (C05: "every reply ... is decodable by the bundled Go client and yields the callback's verdict"; C13): it sends
+; exactly the four fields it was given on the connection it dialled, reads the reply from that same connection, reports success only
+; for a reply that decoded completely and starts with "OK", and every failure (dial, encode, decode) is a denial.
+(func "(*sasl.Client).Auth"
+  (props C05 C13)
+  (noframe)
+  (callsite "(*sasl.Request).Encode" 0
+    (requires sends-exactly-the-four-fields (and (= (. $0 Login) login) (= (. $0 Password) password)
+                                                 (= (. $0 Service) service) (= (. $0 Realm) realm)))
+    (requires to-the-dialled-connection (= $1 (callresult "net.Dial" 0 0))))
+  (callsite "(*sasl.Response).Decode" 0
+    (requires from-the-dialled-connection (= $1 (callresult "net.Dial" 0 0))))
+  (ensures verdict-is-the-decoded-reply (=> (= $r2 nil)
+      (and (called "(*sasl.Response).Decode" 0) (= (callresult "(*sasl.Response).Decode" 0 0) nil)
+           (= $r0 (. (callarg "(*sasl.Response).Decode" 0 0) Result)) (= $r1 (. (callarg "(*sasl.Response).Decode" 0 0) Message)))))
+  (ensures positive-only-on-explicit-ok (=> $r0
+      (and (= $r2 nil) (sl_tok (select (old rin) (callresult "net.Dial" 0 0)))
+           (= (str.substr (xpay (select (old rin) (callresult "net.Dial" 0 0))) 0 2) "OK"))))
+  (ensures complete-ok-reply-is-accepted (=> (and (called "(*sasl.Response).Decode" 0)
+                                                  (sl_tok (select (old rin) (callresult "net.Dial" 0 0)))
+                                                  (= (rterm (callresult "net.Dial" 0 0)) 0)
+                                                  (>= (str.len (xpay (select (old rin) (callresult "net.Dial" 0 0)))) 2)
+                                                  (= (str.substr (xpay (select (old rin) (callresult "net.Dial" 0 0))) 0 2) "OK"))
+                                             (and $r0 (= $r2 nil))))
+  (ensures error-is-denial (=> (not (= $r2 nil)) (not $r0)))
+  (ensures closes-what-it-dialled (=> (= (callresult "net.Dial" 0 1) nil)
+      (= (select closed (callresult "net.Dial" 0 0)) (+ (select (old closed) (callresult "net.Dial" 0 0)) 1)))))
+
 (func "(*sasl.Server).handleConnection"
   (props C05 C04)
   (use be16 fields)
